@@ -206,6 +206,59 @@ PROBE = textwrap.dedent('''
 ''')
 
 
+def ast_duplicates(files: dict) -> list:
+    """Names bound twice in one scope of the generated SOURCE (the import probe cannot see them: the later
+    definition silently replaces the earlier one).  Returns (problem text, originals) with the original
+    (Meta.name / metadata name) spellings of the colliding definitions."""
+    import ast
+
+    out = []
+
+    def meta_name(cd):
+        for b in cd.body:
+            if isinstance(b, ast.ClassDef) and b.name == "Meta":
+                for a in b.body:
+                    if isinstance(a, ast.Assign) and getattr(a.targets[0], "id", None) == "name" and isinstance(a.value, ast.Constant):
+                        return a.value.value
+        return cd.name
+
+    def scope(body, where):
+        classes, fields = {}, {}
+        for b in body:
+            if isinstance(b, ast.ClassDef) and b.name != "Meta":
+                classes.setdefault(b.name, []).append(meta_name(b))
+                scope(b.body, f"{where}.{b.name}" if where else b.name)
+            elif isinstance(b, ast.AnnAssign) and isinstance(b.target, ast.Name):
+                fields.setdefault(b.target.id, []).append(b.target.id)
+            elif isinstance(b, ast.Assign) and where and isinstance(b.targets[0], ast.Name):
+                fields.setdefault(b.targets[0].id, []).append(b.targets[0].id)       # enum members
+        for n, origs in classes.items():
+            if len(origs) > 1:
+                out.append((f"{where or 'module'}: class name {n!r} is defined {len(origs)} times (for {origs})", origs))
+        for n, origs in fields.items():
+            if len(origs) > 1:
+                out.append((f"{where}: field / member name {n!r} is defined {len(origs)} times", origs))
+
+    for rel, text in files.items():
+        if rel.endswith(".py") and not rel.endswith("__init__.py"):
+            try:
+                scope(ast.parse(text).body, "")
+            except SyntaxError as ex:
+                out.append((f"{rel}: generated module is not valid Python: {ex}", []))
+    return out
+
+
+def needs_safe_prefix(name: str) -> bool:
+    """Selector of F28: the class-name filter falls back to the safe prefix for this original name."""
+    import keyword
+    import re
+
+    from xsdata.utils import text
+
+    slug = text.alnum(name)
+    return (not slug) or (not slug[0].isalpha()) or bool(re.match(r"^-\d*\.?\d+$", name)) or keyword.iskeyword(name) or text.is_reserved(name)
+
+
 def generation_case(ctx, kind, files, main, oname, opts, mut, traces, tag):
     from xsdata.codegen.exceptions import CodegenError
 
@@ -230,10 +283,53 @@ def generation_case(ctx, kind, files, main, oname, opts, mut, traces, tag):
             problems = json.loads(p.stdout.strip().splitlines()[-1])
         except Exception:  # noqa: BLE001
             problems = [f"import probe crashed: {p.stderr[-600:]}"]
+        dups = ast_duplicates(gen.files)
+        # F28: two classes collide only because one original name had to be rebuilt from the safe prefix
+        f28 = any("class name" in d and any(needs_safe_prefix(o) for o in origs) for d, origs in dups)
+        for d, origs in dups:
+            tags = ["F28"] if "class name" in d and any(needs_safe_prefix(o) for o in origs) else []
+            ctx.violation(f"{kind} ({oname}): {d}", {**info, "generated": {k: v[:3000] for k, v in gen.files.items()}, "finding_tags": tags})
         for pr in problems:
-            ctx.violation(f"{kind} ({oname}): {pr}", {**info, "generated": {k: v[:3000] for k, v in gen.files.items()}})
+            # the shadowed class makes a compound field see the same type twice: a consequence of the same collision
+            tags = ["F28"] if f28 and "ambiguous types" in pr else []
+            ctx.violation(f"{kind} ({oname}): {pr}", {**info, "generated": {k: v[:3000] for k, v in gen.files.items()}, "finding_tags": tags})
     finally:
         gen.cleanup()
+
+
+def collision_generations(ctx, naming_cases, osets, traces):
+    """Collision classes of the Naming specification as generator input: sets of DIFFERENT source names that
+    the conventions turn into the SAME identifier (computed by TLC for class names and for field names) become
+    sibling elements / attributes of one type and global types of one schema; the generator has to keep them apart."""
+    import re
+
+    ncname = re.compile(r"^[A-Za-z_\u00e9][A-Za-z0-9_.\-\u00e9]*$")
+    groups = {}
+    for c in naming_cases:
+        if c["ok"] and c["conv"] in ("pascal", "snake"):
+            n = lit(c["name"])
+            if ncname.match(n):
+                groups.setdefault((c["conv"], lit(c["result"])), set()).add(n)
+    coll = sorted((k, sorted(v)) for k, v in groups.items() if len(v) >= 2)
+    rnd = random.Random(ctx.seed + 7)
+    rnd.shuffle(coll)
+    coll = coll[: ctx.pick(40, 1500)]
+    for k, ((conv, ident), names) in enumerate(coll):
+        names = rnd.sample(names, min(len(names), 3 + k % 2))
+        if conv == "snake":
+            els = "".join(f'<xs:element name="{n}" type="xs:string" minOccurs="0"/>' for n in names)
+            ats = "".join(f'<xs:attribute name="{n}" type="xs:int"/>' for n in names[:2])
+            body = f'<xs:element name="root"><xs:complexType><xs:sequence>{els}</xs:sequence>{ats}</xs:complexType></xs:element>'
+        else:
+            types = "".join(f'<xs:complexType name="{n}"><xs:sequence><xs:element name="v{i}" type="xs:int"/></xs:sequence></xs:complexType>' for i, n in enumerate(names))
+            els = "".join(f'<xs:element name="e{i}" type="t:{n}" minOccurs="0"/>' for i, n in enumerate(names))
+            body = types + f'<xs:element name="root"><xs:complexType><xs:sequence>{els}</xs:sequence></xs:complexType></xs:element>'
+        xsd = ('<xs:schema xmlns:xs="http://www.w3.org/2001/XMLSchema" targetNamespace="urn:h" xmlns:t="urn:h" elementFormDefault="qualified">' + body + "</xs:schema>")
+        oname, opts, mut = osets[0] if k % 3 else osets[1 + k % (len(osets) - 1)]
+        if mut is not None:       # other naming conventions have other collision classes
+            oname, opts, mut = osets[0]
+        generation_case(ctx, f"xsd-collision-{conv}", {"h.xsd": xsd}, ["h.xsd"], oname, opts, mut, traces, f"coll-{k}")
+    ctx.extra["collision_classes"] = len(coll)
 
 
 def validate_container_traces(ctx, traces):
@@ -299,6 +395,9 @@ def run(ctx):
             src = maker(rnd)
             oname, opts, mut = osets[(k + len(kind)) % len(osets)]
             generation_case(ctx, kind, {fname: src}, [fname], oname, opts, mut, traces, f"{kind}-{k}")
+    collision_generations(ctx, uniq, osets, traces)
+    # the finding F28 is exercised by its reproducer in every run
+    generation_case(ctx, "xml-sample", {"h.xml": '<root><type self="1"/><\u0394 a="1">x</\u0394>text</root>'}, ["h.xml"], "default", {}, None, traces, "f28")
     # the repository's own fixtures through every option set
     fixtures = [("primer", "/repo/tests/fixtures/primer/order.xsd"), ("compound", "/repo/tests/fixtures/compound/compound.xsd"), ("hello", "/repo/tests/fixtures/hello/hello.wsdl")]
     for name, path in fixtures:
